@@ -305,6 +305,9 @@ func (u *Unit) lookupLocal(st *State, name string, env *SpecEnv) *Val {
 	}
 	_, obj := sc.LookupParent(name, env.scopePos)
 	if v, ok := obj.(*types.Var); ok {
+		if r, esc := st.escaped[v]; esc {
+			return u.loadStruct(st, r, types.NewPointer(v.Type()))
+		}
 		if val, ok := st.vars[v]; ok {
 			return val
 		}
@@ -621,7 +624,13 @@ func (u *Unit) specCall(st *State, e *SExpr, env *SpecEnv, q *bool) *Val {
 	case "typeis": // typeis(x, "T"): dynamic type tag test with the Go type string
 		x := ev(0)
 		name := args[1].Name
+		if strings.HasPrefix(name, "map[") || strings.HasPrefix(name, "[]") {
+			// composite type literals are normalised through the type checker's own spelling
+			name = types.TypeString(types.Unalias(u.resolveType(env.pkg, name)), nil)
+		}
 		return boolVal(tAnd(app("distinct", x.S, "0"), tEq(app(u.typeofFn(), x.S), u.d.constant("tag!"+name, SInt))))
+	case "deref": // deref(p): the value a (non-nil) pointer points to
+		return u.loadThrough(st, ev(0))
 	case "asType": // asType(x, "T"): the value of dynamic type T held by the interface value x
 		x := ev(0)
 		t := u.resolveType(env.pkg, args[1].Name)
